@@ -6,7 +6,14 @@
    [calls_ok9 cs sg need dn]: the VM meaning of the calls - for every function name of the signature [sg] the code at
    its label, started in a fresh frame on the argument values, reaches a Return instruction with the value [cs] gives on
    top of its part of the stack (or fails with VarNotFound), the globals related; [need] values of stack and [dn] frames
-   suffice.  [rhs_sim9], [stmt_sim9]: right-hand sides and statements under that hypothesis. *)
+   suffice.  Under that hypothesis: [rhs_sim9] (right-hand sides: a pure expression or a call - arguments, FunctionPointer,
+   CallFunction, the callee's run, Return), [stmt_sim9_all] (SetGlobalVar / SetVar / Return / IfTrue / IfFalse / IfElse; the
+   outcome is a normal end, a Return instruction reached with the value on top, or a failing dispatch), [top_sim9] /
+   [body_sim9] (the cards of a body, declarations of locals included), [pops9].
+   Then the functions: [fn_sim9] (a function body run on its arguments, given the meaning of the calls to the later
+   functions: it ends at a Return instruction - its own, or the ScalarNil; Return behind the Pops - with the caller's part of
+   the stack intact), [fns_sim9] (calls_ok9 for a list of functions by induction: a function only calls later ones),
+   [placed9] / [placed9_intro] (where the functions of a compiled module are: handle, label, code), [loop_fail9]. *)
 From Coq Require Import List NArith ZArith Bool Lia.
 From Cao Require Import ListUtil CheckUtil Bits Stacks Bytecode Compiler CompilerProofs CompilerWf CompilerOk CompilerResolve CardAst.
 From Cao Require Import Vm VmProofs C04VmProofs C01SimVm C01SimVmLocals C01SimDefs C01SimRef C01SimF1 C01SimDefs2 C01SimF2.
